@@ -162,6 +162,20 @@ def token_soup(rng) -> str:
     return "".join(rng.choice(SOUP) for _ in range(rng.randrange(1, 26)))
 
 
+def line_pairs() -> list[str]:
+    """every ordered pair of the line alphabet as a two-line document"""
+    a = line_alphabet()
+    return [x + "\n" + y + "\n" for x in a for y in a]
+
+
+def line_triples() -> list[str]:
+    """a container line, a line that is blank inside / outside the container, any line: what a leaf inside the container does at
+    the container's end line (a scan that runs one line too far would take the third line in)"""
+    a = line_alphabet()
+    heads = [x for x in a if x[:1] in (">", "-", "1") or x.lstrip(" ")[:1] in (">", "-")]
+    return [x + "\n" + m + "\n" + y + "\n" for x in heads for m in (">", "> ", "", "-", "  ") for y in a]
+
+
 def delim_run_family() -> list[str]:
     """every sequence of three emphasis delimiter runs (lengths 1-3; can only open / can only close / can do both; * and _ mixed in
     the last position) plus a deterministic sample of four-run sequences: the opener search of the pairing pass keys its lower
